@@ -27,19 +27,20 @@ pub struct Grammar {
 
 pub const AUG: u16 = u16::MAX;
 
-/// LR(1) item packed as prod(16) | dot(8) | lookahead(8); lookahead `t` is end of input.
-pub type Item = u32;
+/// LR(1) item packed as prod(16) | dot(16) | lookahead(8); lookahead `t` is end of input.
+/// (16 bits for the dot: right-hand sides of more than 255 symbols are part of the scaled families.)
+pub type Item = u64;
 #[inline]
-pub fn item(prod: u16, dot: u8, la: u8) -> Item {
-    ((prod as u32) << 16) | ((dot as u32) << 8) | la as u32
+pub fn item(prod: u16, dot: u16, la: u8) -> Item {
+    ((prod as u64) << 24) | ((dot as u64) << 8) | la as u64
 }
 #[inline]
 pub fn item_prod(i: Item) -> u16 {
-    (i >> 16) as u16
+    (i >> 24) as u16
 }
 #[inline]
-pub fn item_dot(i: Item) -> u8 {
-    (i >> 8) as u8
+pub fn item_dot(i: Item) -> u16 {
+    (i >> 8) as u16
 }
 #[inline]
 pub fn item_la(i: Item) -> u8 {
@@ -47,7 +48,7 @@ pub fn item_la(i: Item) -> u8 {
 }
 #[inline]
 pub fn item_core(i: Item) -> u32 {
-    i >> 8
+    (i >> 8) as u32
 }
 
 pub struct Analysis<'g> {
@@ -341,14 +342,14 @@ pub struct Lr0 {
     pub trans: Vec<BTreeMap<Sym, usize>>,
 }
 
-fn core(prod: u16, dot: u8) -> u32 {
-    ((prod as u32) << 8) | dot as u32
+fn core(prod: u16, dot: u16) -> u32 {
+    ((prod as u32) << 16) | dot as u32
 }
 fn core_prod(c: u32) -> u16 {
-    (c >> 8) as u16
+    (c >> 16) as u16
 }
-fn core_dot(c: u32) -> u8 {
-    c as u8
+fn core_dot(c: u32) -> u16 {
+    c as u16
 }
 
 pub fn lr0(a: &Analysis) -> Lr0 {
@@ -660,10 +661,20 @@ pub fn validate_tree(g: &Grammar, tree: &Tree, word: &[u8]) -> Result<(), String
 // ---------------------------------------------------------------------------------------------
 // Earley recogniser, incremental along an input trie.
 
-/// Earley item: prod(16) | dot(8) | origin(8)
-type EItem = u32;
-fn eitem(prod: u16, dot: u8, origin: u8) -> EItem {
-    ((prod as u32) << 16) | ((dot as u32) << 8) | origin as u32
+/// Earley item: prod(16) | dot(16) | origin(16)
+type EItem = u64;
+fn eitem(prod: u16, dot: u16, origin: u16) -> EItem {
+    ((prod as u64) << 32) | ((dot as u64) << 16) | origin as u64
+}
+
+fn ep(it: EItem) -> u16 {
+    (it >> 32) as u16
+}
+fn ed(it: EItem) -> usize {
+    ((it >> 16) & 0xffff) as usize
+}
+fn eo(it: EItem) -> usize {
+    (it & 0xffff) as usize
 }
 
 pub struct Earley<'a> {
@@ -687,20 +698,20 @@ impl<'a> Earley<'a> {
         let mut set: BTreeSet<EItem> = seed.iter().copied().collect();
         let mut work = seed;
         while let Some(it) = work.pop() {
-            let p = (it >> 16) as u16;
-            let d = ((it >> 8) & 0xff) as usize;
-            let o = (it & 0xff) as usize;
+            let p = ep(it);
+            let d = ed(it);
+            let o = eo(it);
             let rhs = self.a.rhs(p);
             if d < rhs.len() {
                 if let Sym::N(b) = rhs[d] {
                     for &q in &self.a.by_lhs[b as usize] {
-                        let ni = eitem(q, 0, k as u8);
+                        let ni = eitem(q, 0, k as u16);
                         if set.insert(ni) {
                             work.push(ni);
                         }
                     }
                     if self.a.nullable[b as usize] {
-                        let ni = eitem(p, d as u8 + 1, o as u8);
+                        let ni = eitem(p, d as u16 + 1, o as u16);
                         if set.insert(ni) {
                             work.push(ni);
                         }
@@ -711,11 +722,11 @@ impl<'a> Earley<'a> {
                 // completer: parents live in set `o` (which is the set under construction when o == k)
                 let parents: Vec<EItem> = if o == k { set.iter().copied().collect() } else { self.sets[o].clone() };
                 for par in parents {
-                    let pp = (par >> 16) as u16;
-                    let pd = ((par >> 8) & 0xff) as usize;
+                    let pp = ep(par);
+                    let pd = ed(par);
                     let prhs = self.a.rhs(pp);
                     if pd < prhs.len() && prhs[pd] == Sym::N(lhs) {
-                        let ni = eitem(pp, pd as u8 + 1, (par & 0xff) as u8);
+                        let ni = eitem(pp, pd as u16 + 1, eo(par) as u16);
                         if set.insert(ni) {
                             work.push(ni);
                         }
@@ -732,11 +743,11 @@ impl<'a> Earley<'a> {
         let k = self.sets.len() - 1;
         let mut seed = vec![];
         for &it in &self.sets[k] {
-            let p = (it >> 16) as u16;
-            let d = ((it >> 8) & 0xff) as usize;
+            let p = ep(it);
+            let d = ed(it);
             let rhs = self.a.rhs(p);
             if d < rhs.len() && rhs[d] == Sym::T(tok) {
-                seed.push(eitem(p, d as u8 + 1, (it & 0xff) as u8));
+                seed.push(eitem(p, d as u16 + 1, eo(it) as u16));
             }
         }
         if seed.is_empty() {
